@@ -29,6 +29,7 @@ class Ctx:
         self.cases = 0
         self.case = None
         self.max_samples = 3
+        self.journal = None
 
     # ---- observation
     def count(self, name, n=1):
@@ -60,6 +61,15 @@ class Ctx:
         self.violations.append(v)
         return v
 
+    def step(self, desc):
+        """Record the sub-step about to run in the journal (so a crash names the exact call)."""
+        if self.journal is None or self.case is None:
+            return
+        c = dict(self.case)
+        c["step"] = str(desc)[:1500]
+        with open(self.journal, "w") as f:
+            json.dump(c, f, default=_jsonable)
+
     def check(self, cond, key, msg, detail=None):
         """Convenience: record a violation unless cond holds. Returns cond."""
         if not cond:
@@ -69,7 +79,7 @@ class Ctx:
 
 def case_rng(case, salt=""):
     """Deterministic RNG for a case descriptor."""
-    s = json.dumps(case, sort_keys=True) + salt
+    s = json.dumps({k: v for k, v in case.items() if k != "step"}, sort_keys=True) + salt
     return random.Random(int(hashlib.sha1(s.encode()).hexdigest()[:16], 16))
 
 
@@ -107,6 +117,7 @@ def worker_main(argv):
     prop = load_prop(prop_id)
     ctx = Ctx(prop_id, tier, seed)
     journal = os.path.join(outdir, f"journal-{shard}.json")
+    ctx.journal = journal
     result = os.path.join(outdir, f"result-{shard}-{attempt}.json")
     t0 = time.time()
     last_idx = -1
